@@ -10,3 +10,12 @@ CLAIMS["C06"] = {
     "note": "Trusts the harness' identity function (type, name, tag multiset, source); tags containing ',' or starting with 's:' and empty-string tags are excluded (two identities then render to one map key; the lexer never emits empty tags).",
     "technique": "property-based testing (rapid): partition + determinism oracle over generated metric maps",
 }
+
+CLAIMS["C07"] = {
+    "text": "Random families of 2..6 metric maps over colliding series with tied / inverted timestamps, under a drawn permutation and bracketing, are merged by every "
+            "merger the statement names (MergeMaps, pairwise Merge tree, MetricConsolidator with 1..4 slots fed concurrently by maps or raw datapoints, "
+            "MetricAggregator.ReceiveMap, the cloud stage's parked queue incl. re-keying after a successful lookup, the tag stage when dropped tags make series coincide) "
+            "and each result is compared, series by series and in both directions, with an independent reference fold. Exploration: sampled families and arrangements.",
+    "note": "Trusts the reference fold in harness/internal/model (counters add, timer multiset union, sampled counts add with 1e-9 relative tolerance, sets unite, gauge = any value of the newest timestamp, newest timestamp kept). The forwarder's merging is exercised by C15.",
+    "technique": "property-based testing (rapid): differential against a reference aggregate over generated map families, permutations and bracketings",
+}
